@@ -816,7 +816,7 @@ func (c *compiler) compileFunction(expr ast.Expr) *compiledFunc {
 }
 
 func (c *compiler) getPosInfo(n ast.Node) *PosInfo {
-	pos := c.nodePosition(n)
+	pos := c.fset.PositionFor(n.Pos(), false /* adjusted */)
 	posInfo := &PosInfo{
 		File:   filepath.Join(c.pkg.Path(), filepath.Base(pos.Filename)),
 		Line:   pos.Line,
